@@ -1145,6 +1145,15 @@ func (it *Interp) runDefers(fr *Frame) {
 	}
 }
 
+// where names the innermost polyform functions on the interpreted stack.
+func (it *Interp) where() string {
+	var st []string
+	for i := len(it.stack) - 1; i >= 0 && len(st) < 3; i-- {
+		st = append(st, it.stack[i].String())
+	}
+	return strings.Join(st, " < ")
+}
+
 func (it *Interp) runtimePanic(msg string) {
 	var st []string
 	for i := len(it.stack) - 1; i >= 0 && len(st) < 4; i-- {
